@@ -2,6 +2,8 @@
 //! libFuzzer target: the byte string is decoded by the same decoder the property check uses and judged by the same oracle.
 use libfuzzer_sys::fuzz_target;
 fuzz_target!(|data: &[u8]| {
+    // the library prints diagnostics with println!: keep them out of the campaign log
+    engine::report::silence_library_stdout();
     let case = rdpcheck::props::c07::decode(&mut engine::Src::new(data));
     let out = rdpcheck::props::c07::run(&case);
     if let Some(f) = out.failure {
